@@ -429,6 +429,30 @@ int main(int argc, char **argv) {
             vh_bool("ok", slot[d] != NULL);
             vh_proj("got", slot[d]);
             vh_end();
+        } else if (vh_is("DUPOBJ") || vh_is("DUPARR")) {
+            /* DUPOBJ o keyhex d | DUPARR a index d : duplicate of a value that is still a member of its container
+             * (a borrowed reference from get_from_object / get_array_element); the duplicate is a value of its own */
+            bool from_obj = vh_is("DUPOBJ");
+            int o = slot_id(1), d = slot_id(3);
+            size_t n = 0;
+            uint8_t *key = from_obj ? unhex(vh_args(2), &n) : NULL;
+            long long i = from_obj ? 0 : vh_argi(2);
+            struct aws_json_value *g = from_obj ? aws_json_value_get_from_object(slot[o], aws_byte_cursor_from_array(key, n))
+                                                : aws_json_get_array_element(slot[o], (size_t)i);
+            if (g && !slot[d]) {
+                slot[d] = aws_json_value_duplicate(g);
+            }
+            vh_begin("DuplicateSub");
+            vh_str("from", from_obj ? "obj" : "arr");
+            vh_int("o", o);
+            vh_bytes("key", key, n);
+            vh_int("i", i);
+            vh_int("d", d);
+            vh_bool("found", g != NULL);
+            vh_bool("ok", g != NULL && slot[d] != NULL);
+            vh_proj("got", g ? slot[d] : NULL);
+            vh_end();
+            free(key);
         } else if (vh_is("CMP")) {
             int a = slot_id(1), b = slot_id(2);
             bool r = aws_json_value_compare(slot[a], slot[b], true);
